@@ -967,69 +967,112 @@ func ruleC01Ops(c *Ctx) {
 	if n < 6 {
 		c.Undecided("C01.OPS", "zitiql/ZitiQl.g4: LT/GT/EQ rules", "-", fmt.Sprintf("expected 6 operator spellings from the grammar, derived %d", n))
 	}
-	// (c) case-insensitive contains: maps to the case-sensitive operator and upper-cases BOTH operands
-	hc := p.SSAFunc(p.Method("ast", "BinaryExprNode", "handleCaseInsensitive"))
-	c.Analysed(FnName(hc))
+	// (c) case-insensitive contains: maps to the case-sensitive operator and upper-cases BOTH operands —
+	// decided by running the type transform of a binary expression with two string operands for the two
+	// case-insensitive operators and looking at the node it returns (wherever the mapping is written: a
+	// helper, the caller, a table).
+	tt := p.SSAFunc(p.Method("ast", "BinaryExprNode", "TypeTransformBool"))
+	c.Analysed(FnName(tt))
 	toUpper := p.Method("ast", "BinaryExprNode", "toUpper")
-	var l, r bool
 	bsn := p.Named("ast", "BinaryStringExprNode")
-	for _, b := range hc.Blocks {
-		for _, in := range b.Instrs {
-			st, ok := in.(*ssa.Store)
-			if !ok {
+	ops := opConsts(c)
+	opFld := p.Field("ast", "BinaryExprNode", "op")
+	strType := constInt(p.Obj("ast", "NodeTypeString"))
+	operandName := func(v ssa.Value) string {
+		for i := 0; i < 4; i++ {
+			v = assertSource(v)
+			if ta, isTA := v.(*ssa.TypeAssert); isTA {
+				v = ta.X
 				continue
 			}
-			f, base := fieldOfAddr(st.Addr)
-			if f == nil || namedOf(base.Type()) != bsn {
-				continue
-			}
-			if call, ok := st.Val.(*ssa.Call); ok && isCallTo(call, toUpper) {
-				if f.Name() == "left" && call.Call.Args[1] == ssa.Value(hc.Params[1]) {
-					l = true
-				}
-				if f.Name() == "right" && call.Call.Args[1] == ssa.Value(hc.Params[2]) {
-					r = true
-				}
+			break
+		}
+		if f, base := loadedField(v); f != nil && base == ssa.Value(tt.Params[0]) && (f.Name() == "left" || f.Name() == "right") {
+			return f.Name()
+		}
+		return ""
+	}
+	fieldIdx := func(name string) string {
+		st, _ := bsn.Underlying().(*types.Struct)
+		for i := 0; st != nil && i < st.NumFields(); i++ {
+			if st.Field(i).Name() == name {
+				return fmt.Sprintf(".f%d", i)
 			}
 		}
+		return ".f?"
 	}
-	c.Check(l && r, "C01.OPS", FnName(hc)+": folds both operands", p.Pos(hc.Pos()), "both operands are upper-cased before the case-sensitive contains", "icontains does not fold both operands to the same case")
-	ops := opConsts(c)
-	okMap := true
-	opFld := p.Field("ast", "BinaryExprNode", "op")
 	for _, w := range []struct{ in, out string }{{"IContains", "Contains"}, {"NotIContains", "NotContains"}} {
-		var got int64 = -1
-		_, err := Decide(hc, func(v ssa.Value) (AV, bool) {
-			if f, base := loadedField(v); sameVar(f, opFld) && base == ssa.Value(hc.Params[0]) {
-				return avInt(ops[w.in]), true
-			}
-			if call, ok := v.(*ssa.Call); ok && isCallTo(call, toUpper) {
-				return AV{Kind: "nonnil"}, true
-			}
-			if _, ok := v.(*ssa.Alloc); ok {
-				return AV{Kind: "nonnil"}, true
-			}
-			if _, ok := v.(*ssa.MakeInterface); ok {
-				return AV{Kind: "nonnil"}, true
-			}
-			return AV{}, false
-		}, nil)
-		_ = err
-		// read the op stored into the result node along the decided path: simpler — the phi/const stored
-		for _, b := range hc.Blocks {
-			for _, in := range b.Instrs {
-				if st, ok := in.(*ssa.Store); ok {
-					if f, base := fieldOfAddr(st.Addr); f != nil && f.Name() == "op" && namedOf(base.Type()) == bsn {
-						got = storedOpFor(hc, st.Val, opFld, ops[w.in])
+		oracle := func(v ssa.Value) (AV, bool) {
+			switch x := v.(type) {
+			case *ssa.UnOp:
+				if f, base := loadedField(x); sameVar(f, opFld) && base == ssa.Value(tt.Params[0]) {
+					return avInt(ops[w.in]), true
+				}
+				if nm := operandName(x); nm != "" {
+					return AV{Kind: "nonnil", Sym: "operand:" + nm}, true
+				}
+			case *ssa.TypeAssert:
+				nm := operandName(x.X)
+				isString := false
+				if it, isI := x.AssertedType.Underlying().(*types.Interface); isI {
+					for i := 0; i < it.NumMethods(); i++ {
+						if it.Method(i).Name() == "EvalString" {
+							isString = true
+						}
 					}
 				}
+				if nm != "" && isString {
+					node := AV{Kind: "nonnil", Sym: "operand:" + nm}
+					if x.CommaOk {
+						return AV{Kind: "tuple", Tup: []AV{node, avBool(true)}}, true
+					}
+					return node, true
+				}
+				if x.CommaOk {
+					// plain string operands are nothing else (not transformable, not a set function, not null)
+					return AV{Kind: "tuple", Tup: []AV{{Kind: "nil"}, avBool(false)}}, true
+				}
+			case *ssa.Call:
+				if invokeNamed(x, "GetType") && x.Call.IsInvoke() && operandName(x.Call.Value) != "" {
+					return avInt(strType), true
+				}
+				if isCallTo(x, toUpper) && len(x.Call.Args) == 2 {
+					if nm := operandName(x.Call.Args[1]); nm != "" {
+						return AV{Kind: "nonnil", Sym: "upper:" + nm}, true
+					}
+					return AV{Kind: "nonnil", Sym: "upper:?"}, true
+				}
+				if cal, _ := calleeOf(x.Common()); cal != nil && isErrorCtor(cal) {
+					return AV{Kind: "nonnil"}, true
+				}
+			}
+			return AV{}, false
+		}
+		res, typeOf, fieldsOf, err := DecideObjects(tt, oracle)
+		construct := FnName(tt) + ": " + w.in
+		if err != "" {
+			c.Undecided("C01.OPS", construct, p.Pos(tt.Pos()), "the type transform could not be evaluated for this operator: "+err)
+			continue
+		}
+		ok, why := true, ""
+		switch {
+		case len(res) != 2 || res[1].Kind != "nil":
+			ok, why = false, fmt.Sprintf("the transform of two string operands under %s reports an error (%v)", w.in, res)
+		case typeOf(res[0]) == nil || namedOf(typeOf(res[0])) != bsn:
+			ok, why = false, fmt.Sprintf("the result is not a BinaryStringExprNode (%v)", typeOf(res[0]))
+		default:
+			f := fieldsOf(res[0])
+			l, r, o := f[fieldIdx("left")], f[fieldIdx("right")], f[fieldIdx("op")]
+			if l.Sym != "upper:left" || r.Sym != "upper:right" {
+				ok, why = false, fmt.Sprintf("the operands of the typed node are (%s, %s) instead of the upper-cased left and right operands: icontains does not fold both operands to the same case", l.Sym, r.Sym)
+			} else if o.Kind != "const" {
+				ok, why = false, "the operator of the typed node is not decided"
+			} else if g, _ := constant.Int64Val(o.C); g != ops[w.out] {
+				ok, why = false, fmt.Sprintf("the operator of the typed node is %d instead of BinaryOp%s (%d): the case-insensitive operators are not mapped to their case-sensitive counterparts", g, w.out, ops[w.out])
 			}
 		}
-		if got != ops[w.out] {
-			okMap = false
-		}
+		c.Check(ok, "C01.OPS", construct, p.Pos(tt.Pos()), w.in+" over strings becomes "+w.out+" over both operands upper-cased", why)
 	}
-	c.Check(okMap, "C01.OPS", FnName(hc)+": operator mapping", p.Pos(hc.Pos()), "icontains→contains and not icontains→not contains", "the case-insensitive operators are not mapped to their case-sensitive counterparts")
 	c.Floor("C01.OPS", 12)
 }
 
